@@ -141,6 +141,23 @@ class CGen:
         return Cast(self.expr(r.choice([INT, BYTE]), d - 1), BOOL)
 
 
+BYTE_PAIRS = [
+    ('sum beyond 255', 'byte a = 200 + 100; write(a is int);', 'byte a = p + q; write(a is int);'),
+    ('intermediate beyond 255', 'byte a = 200 + 100 - 100; write(a is int);', 'byte a = p + q - q; write(a is int);'),
+    ('product of 16s', 'byte a = 16 * 16; write(a is int);', 'byte a = s * s; write(a is int);'),
+    ('negative result', 'byte a = 100 - 200; write(a is int);', 'byte a = q - p; write(a is int);'),
+    ('assignment', 'byte a = 1; a = 200 + 100; write(a is int);', 'byte a = 1; a = p + q; write(a is int);'),
+    ('compound assignment', 'byte a = 250; a += 200; write(a is int);', 'byte a = 250; a += p; write(a is int);'),
+    ('array element', 'byte[] e = [1, 2, 200 + 100]; write(e[2] is int);', 'byte[] e = [1, 2, p + q]; write(e[2] is int);'),
+    ('element store', 'byte e[2]; e[1] = 200 * 2; write(e[1] is int);', 'byte e[2]; e[1] = p * 2; write(e[1] is int);'),
+    ('argument', 'ov(200 + 100);', 'ov(p + q);'),
+    ('large literal', 'byte a = 300; byte b = 256; byte c = 511; write(a is int); write(b is int); write(c is int);',
+     'byte a = p + q; byte b = s * s; byte c = p + q + p + 11; write(a is int); write(b is int); write(c is int);'),
+    ('in range', 'byte a = 100 + 100; write(a is int);', 'byte a = q + q; write(a is int);'),
+]
+BYTE_PAIRS = [(t, c, v) for t, c, v in BYTE_PAIRS if 'ov(' not in c]
+
+
 def forms(word, bits, hi):
     """constant-dependent decisions other than arithmetic folding, enumerated: constant indices (in and out of range,
     negative) into constant strings, const string variables, constant array literals and local arrays; a computed left
@@ -223,6 +240,15 @@ def nowrap_suspect(e, lo, hi):
     return None
 
 
+def _ov(t, tag):
+    q = Var('q', t)
+    return Func('ov', [('q', t, False)], EMPTY, [ExprStmt(Call('write', [Lit(BYTE, ord(tag), keep=True)])), ExprStmt(Call('write', [Cast(q, INT) if t != INT else q]))], tag='ov')
+
+
+# one function name, one overload per scalar type: which one a constant selects must not depend on folding
+OV = {INT: _ov(INT, 'i'), BYTE: _ov(BYTE, 'b'), BOOL: _ov(BOOL, 'f')}
+
+
 def count_ops(e):
     return sum(1 for x in A.walk_expr(e) if isinstance(x, (Bin, Un, Cast, Spec)))
 
@@ -255,6 +281,12 @@ def build(stmts_exprs, consts, tick):
             # a loop whose condition folds to false must simply be skipped (and what follows it must still run)
             body += [While(e, [W(Lit(BYTE, ord('L'), keep=True))]), W(Lit(BYTE, ord('a'), keep=True)), sep]
             continue
+        if usage == 'raw':
+            body += [W(e), sep]                      # write(byte) emits the raw byte, write(bool) the word: the static type shows
+            continue
+        if usage == 'overload':
+            body += [ExprStmt(Call(OV[e.t], [e])), sep]
+            continue
         pr = e if e.t != BYTE else Cast(e, INT)
         if usage == 'value' or e.t != BOOL:
             if usage == 'decl':
@@ -270,6 +302,8 @@ def build(stmts_exprs, consts, tick):
         else:
             body.append(Try([ExprStmt(Call('!truth_is_defeat', [e])), W(Lit(BYTE, ord('F'), keep=True))], 'stop', [W(Lit(BYTE, ord('T'), keep=True))]))
         body.append(sep)
+    if any(u == 'overload' for _, u in stmts_exprs):
+        funcs = funcs + list(OV.values())       # the whole overload family, in a fixed order
     return Program([Decl('tn', INT, Lit(INT, 0, keep=True))], [Func('@is_you', [], EMPTY, body), tick] + funcs)
 
 
@@ -357,6 +391,24 @@ def run_shard(spec):
     if spec['kind'] == 'forms':
         for tag, items, consts in forms(word, bits, hi):
             check_items(res, items, consts, word, lo, hi)
+        # constant byte arithmetic that leaves the byte range against the same arithmetic on byte variables (an int literal is
+        # coercible to byte, and so is arithmetic over operands that all are: neither form faults, both keep the low byte)
+        for tag, c_src, v_src in BYTE_PAIRS:
+            res['evaluations'] += 1
+            mk = lambda b: 'empty @is_you() {\n    byte p = 200; byte q = 100; byte s = 16; byte z = 0;\n    ' + b + '\n}\n'      # noqa: E731
+            case = diff.case_dict(mk(c_src), [], word, diff.GENEROUS_STACK, twin=mk(v_src), gen=tag)
+            rc = diff.compile_and_run(mk(c_src), (), word=word, max_steps=MAX_STEPS, monitors=False)
+            rv = diff.compile_and_run(mk(v_src), (), word=word, max_steps=MAX_STEPS, monitors=False)
+            if rv.kind != 'ok':
+                runner.fail(res, 'M-FOLD', f'{tag}: the variable form does not compile: {rv.detail}', case)
+            elif rc.kind != 'ok':
+                runner.fail(res, 'M-FOLD', f'{tag}: constant form {rc.kind} ({rc.detail}) although the same arithmetic on byte variables runs: {rv.outcome.out!r}', case)
+            elif rc.outcome.stream != rv.outcome.stream:
+                runner.fail(res, 'M-FOLD', f'{tag}: constant form prints {rc.outcome.out!r}, variable form {rv.outcome.out!r}', case,
+                            expected=rv.outcome.brief(), observed=rc.outcome.brief())
+            else:
+                runner.count(res, 'byte_pairs_identical')
+                res['nontrivial'].append(runner.case_id(tag, word))
         # whole programs whose literals decide where data lives and which code is emitted (array literals made of constants
         # bound to mutable arrays, constant indices, literal operands next to calls): written form vs run-time twin
         from ..gen import idioms
@@ -385,7 +437,7 @@ def run_shard(spec):
         g.runtime = r.random() < 0.4
         for _ in range(r.randint(3, 8)):
             t = r.choice([INT, INT, BYTE, BOOL, BOOL])
-            usage = r.choice(['value', 'branch', 'decl', 'tid'])
+            usage = r.choice(['value', 'branch', 'decl', 'tid', 'overload'] + (['raw', 'raw'] if t != INT else []))
             if t == BOOL and r.random() < 0.15:
                 was = g.runtime
                 g.runtime = False
